@@ -1,6 +1,7 @@
 package main
 
 import (
+	"encoding/base64"
 	"errors"
 	"fmt"
 	"math/rand/v2"
@@ -287,6 +288,41 @@ func checkC15(c *run.Ctx) {
 					c.Count("ill_typed_rows", 1)
 					c.Feature("illtyped", b.typ, b.key, fk)
 				}
+			}
+		}
+	})
+	// An additional key is whatever its text is - also when it carries a tag whose decoded payload would spell a
+	// kind-determining key (`!!binary d2FpdA==` is base64 for "wait") or `type`.
+	c.Phase("tagged-keys", func() {
+		b64 := func(s string) string { return base64.StdEncoding.EncodeToString([]byte(s)) }
+		own := map[string]string{"command": "command: c", "wait": "wait: ~", "input": "block: b", "trigger": "trigger: t", "group": "group: g\n    steps: []"}
+		rank := map[string]int{"command": 0, "wait": 1, "input": 2, "trigger": 3, "group": 4}
+		for kind, line := range own {
+			for _, word := range append(append([]string{}, c15Keys...), "type") {
+				text := "steps:\n  - " + line + "\n    !!binary " + b64(word) + ": wait\n"
+				id := "tagged/" + kind + "/" + word
+				var p *pipeline.Pipeline
+				var perr error
+				if pi := run.Guard(func() { p, perr = pipeline.Parse(strings.NewReader(text)) }); pi != nil {
+					c.Violation(id, map[string]any{"what": "Parse panicked: " + pi.Value, "document": text, "stack": pi.Stack})
+					continue
+				}
+				c.Eval(1)
+				if perr != nil && !warning.Is(perr) {
+					c.Count("tagged_key_documents_refused", 1)
+					continue
+				}
+				if len(p.Steps) != 1 {
+					c.Violation(id, map[string]any{"what": fmt.Sprintf("expected one step, got %d", len(p.Steps)), "document": text})
+					continue
+				}
+				if got := stepKind(p.Steps[0]); got != kind {
+					c.Violation(id, map[string]any{"what": fmt.Sprintf("a %s step with an additional key tagged !!binary (payload %q) parsed as %s: an additional key changed the decision", kind, word, got), "document": text, "warning": fmt.Sprint(perr)})
+					continue
+				}
+				_ = rank
+				c.Count("tagged_key_rows", 1)
+				c.Feature("tagged", kind, word)
 			}
 		}
 	})
